@@ -219,6 +219,57 @@ pub fn program(rng: &mut Rng) -> (Program, String) {
     (Program::single(pre), sk)
 }
 
+/// A second program on an interpreter value that has run one before (`ExecStmt::visit_program` takes `&mut self`):
+/// its statements run in order like anybody's, however the first program ended.
+fn interpreter_reuse_case(ctx: &mut Ctx, idx: u64) {
+    const FIRST: &[&str] = &[
+        "say 0\n",
+        "say 0\nbreak\n",
+        "say 0\ntake it to the top\n",
+        "say 0\ncontinue\n",
+        "say 0\ngive back 1\n",
+        "say 0\nsay mysterious at 0\n",
+        "X is 1\nwhile X\nsay 0\nbreak\n\n",
+    ];
+    const SECOND: &[(&str, &str)] = &[
+        ("say 1\nsay 2\n", "1\n2\n"),
+        ("Y is 2\nwhile Y\nsay Y\nknock Y down\n\nsay 9\n", "2\n1\n9\n"),
+        ("say 1\nbreak\nsay 2\n", "1\n"),
+        ("say 1\ngive back 2\n", "1\n"),
+        ("say 1\n\nsay 2\n\nsay 3\n", "1\n2\n3\n"),
+    ];
+    let first = FIRST[(idx as usize) % FIRST.len()];
+    let (second, want) = SECOND[(idx as usize / FIRST.len()) % SECOND.len()];
+    let case = || Json::obj().with("first_program", Json::s(first)).with("second_program", Json::s(second));
+    let (p1, p2) = match (crate::mon::parse_quiet(first), crate::mon::parse_quiet(second)) {
+        (Ok(a), Ok(b)) => (a, b),
+        _ => {
+            ctx.count("interpreter_reuse_programs_rejected_by_the_parser");
+            return;
+        }
+    };
+    ctx.eval();
+    match crate::mon::exec_sequence_guarded(&[&p1, &p2], 10_000) {
+        Err(p) => {
+            ctx.sites.absorb();
+            ctx.panic_outcome("reused_interpreter", &p, case());
+        }
+        Ok(res) => {
+            ctx.sites.absorb();
+            let got = String::from_utf8_lossy(&res[1].0).to_string();
+            if got != want || res[1].1.is_err() {
+                ctx.violation(
+                    "second_program_on_a_reused_interpreter_does_not_run_in_order",
+                    &format!("the second program printed {:?} and ended with {:?}; its statements in order print {:?}", got, res[1].1, want),
+                    case(),
+                );
+            } else {
+                ctx.count("interpreter_reuse_cases_held");
+            }
+        }
+    }
+}
+
 pub fn run(ctx: &mut Ctx) {
     ctx.log_events = true;
     if ctx.miri {
@@ -228,6 +279,7 @@ pub fn run(ctx: &mut Ctx) {
         });
         return;
     }
+    ctx.cases("interpreter_reuse", 35, |ctx, _, idx| interpreter_reuse_case(ctx, idx));
     let n = ctx.size(60_000, 2_000_000);
     ctx.cases("programs", n, |ctx, rng, _| {
         let (tree, skeleton) = program(rng);
